@@ -62,12 +62,24 @@ static void init_docs(int k) {
     MDOCS.push_back({"xmldecl-unknown-encoding", "<?xml version='1.0' encoding='x-no-such-encoding'?><a/>"});
     MDOCS.push_back({"ext-entity-bad-textdecl", "<!DOCTYPE r [<!ENTITY x SYSTEM 'bad.ent'>]><r>&x;</r>"});
     MDOCS.push_back({"ext-subset-bad-textdecl", "<!DOCTYPE r SYSTEM 'bad.dtd'><r/>"});
+    // text nodes and attribute values that outgrow the DOM arena's sub-allocation limit (also under the non-default limits of --domheap) and keep
+    // growing while they are parsed (character data continued by entity replacement text / CDATA sections are separate nodes, entity text is not)
+    {
+        const std::string E = "<!DOCTYPE r [<!ENTITY e '0123456789012345678901234567890123456789'>]>";
+        std::string t3(3000, 'a'), t5(5000, 'b'), t40(40, 'c');
+        MDOCS.push_back({"long-text-then-entity", E + "<r>" + t3 + "&e;</r>"});
+        MDOCS.push_back({"long-text-entity-twice", E + "<r>" + t3 + "&e;" + t5 + "&e;&e;</r>"});
+        MDOCS.push_back({"long-attribute-then-long-text", E + "<r a='" + t3 + "&e;'>" + t3 + "&e;<!--" + t5 + "-->" + t5 + "&e;</r>"});
+        MDOCS.push_back({"two-long-texts-then-error", E + "<r><a>" + t3 + "&e;</a><b>" + t5 + "&e;&e;</b><c>" + t40 + "&e;</c></r><"});
+        MDOCS.push_back({"short-texts-with-entities", E + "<r><a>" + t40 + "&e;</a><b x='" + t40 + "'>&e;" + t40 + "&e;</b></r>"});
+    }
     MDOCS.push_back({"forced-unsupported-encoding", "\x01" "FORCE:x-no-such-encoding\x01<a/>"});
 }
 
 // ------------------------------------------------------------------------------------------ one scenario = (doc, api, lifetime) ; endings enumerated inside
 struct CountCfg { Config cfg; };
-static Config base_cfg(int api) { Config c; c.api = api; c.ns = true; c.schema = true; c.val = 2; c.exitFirstFatal = true; return c; }
+static int g_plaincfg = 0;   // 1: no namespaces, no validation, no schema processing (the parsers' defaults) instead of everything switched on
+static Config base_cfg(int api) { Config c; c.api = api; c.ns = !g_plaincfg; c.schema = !g_plaincfg; c.val = g_plaincfg ? 0 : 2; c.exitFirstFatal = true; return c; }
 
 // runs one parse on a parser built on `mm`; ending: throwAt>0 => handler exception at that callback; pullSteps>=0 => progressive abandoned after that many parseNext
 // returns number of handler callbacks seen (for enumeration of k) and number of parseNext steps possible
@@ -96,7 +108,8 @@ static RunInfo one_run(int api, int lifetime, const std::string& bytes, int thro
         } else if (api == 1) {
             SAX2XMLReaderImpl* p = new (mm) SAX2XMLReaderImpl(mm);
             Sax2H h; h.r = &r; h.cfg = &cfg; h.nsmode = true;
-            p->setFeature(XMLUni::fgXercesSchema, true); p->setFeature(XMLUni::fgSAX2CoreValidation, true); p->setFeature(XMLUni::fgXercesDynamic, true);
+            if (!g_plaincfg) { p->setFeature(XMLUni::fgXercesSchema, true); p->setFeature(XMLUni::fgSAX2CoreValidation, true); p->setFeature(XMLUni::fgXercesDynamic, true); }
+            else { p->setFeature(XMLUni::fgSAX2CoreValidation, false); p->setFeature(XMLUni::fgSAX2CoreNameSpaces, false); }
             p->setContentHandler(&h); p->setErrorHandler(&h); p->setLexicalHandler(&h); p->setDeclarationHandler(&h); p->setDTDHandler(&h);
             try {
                 if (pullSteps >= 0) { XMLPScanToken tok; if (p->parseFirst(src, tok)) { int n = 0; while (n < pullSteps && p->parseNext(tok)) n++; info.steps = n; if (n == pullSteps) p->parseReset(tok); } }
@@ -131,7 +144,8 @@ static RunInfo one_run(int api, int lifetime, const std::string& bytes, int thro
             struct ThrowingDomErr : public DomErrH { bool handleError(const DOMError& e) override { tick(); return DomErrH::handleError(e); } } te;
             te.r = &r; te.cfg = &cfg;
             DOMConfiguration* dc = p->getDomConfig();
-            dc->setParameter(XMLUni::fgDOMNamespaces, true); dc->setParameter(XMLUni::fgXercesSchema, true); dc->setParameter(XMLUni::fgDOMValidateIfSchema, true);
+            if (!g_plaincfg) { dc->setParameter(XMLUni::fgDOMNamespaces, true); dc->setParameter(XMLUni::fgXercesSchema, true); dc->setParameter(XMLUni::fgDOMValidateIfSchema, true); }
+            else { dc->setParameter(XMLUni::fgDOMNamespaces, false); dc->setParameter(XMLUni::fgDOMEntities, false); }
             dc->setParameter(XMLUni::fgDOMErrorHandler, &te);
             try { Wrapper4InputSource w(&src, false); p->parse(&w); } XV_CATCH_DOCUMENTED(r)
             if (lifetime == 1) { cfg.throwAt = 0; try { Wrapper4InputSource w(&src2, false); p->parse(&w); } XV_CATCH_DOCUMENTED(r) }
@@ -204,6 +218,7 @@ static void run_parse(uint64_t idx, Ctx& c) {
 // ------------------------------------------------------------------------------------------ Initialize / Terminate sequences
 // alphabet: 0 Init(default manager) 1 Init(custom ledger) 2 Terminate 3 work:parse 4 work:regex 5 work:transcode
 static int g_itdepth = 5;
+static int g_itheap = 0;   // 1: both Initialize operations pass non-default DOM arena parameters, and work item 5 also builds a DOM document with a long, growing text
 static std::string work(int w) {
     std::string o;
     try {
@@ -220,6 +235,15 @@ static std::string work(int w) {
             XMLCh* x = XMLString::transcode("h\xC3\xA9llo"); char* b = XMLString::transcode(x); o = b; XMLString::release(&x); XMLString::release(&b);
             DOMImplementation* impl = DOMImplementationRegistry::getDOMImplementation(X16("LS").p());
             o += impl ? "|LS" : "|null";
+            if (g_itheap) {
+                XercesDOMParser dp; dp.setCreateEntityReferenceNodes(false);
+                std::string d = "<!DOCTYPE r [<!ENTITY e '0123456789012345678901234567890123456789'>]><r a='" + std::string(3000, 'x') + "'>" + std::string(3000, 'a') + "&e;" + std::string(5000, 'b') + "&e;</r>";
+                MemBufInputSource s((const XMLByte*)d.data(), d.size(), X16("d.xml").p());
+                dp.parse(s);
+                DOMDocument* doc = dp.getDocument();
+                o += "|" + std::to_string(doc && doc->getDocumentElement() ? XMLString::stringLen(doc->getDocumentElement()->getTextContent()) : 0);
+                DOMDocument* own = dp.adoptDocument(); if (own) { own->getDocumentElement()->setAttribute(X16("k").p(), X16(std::string(4000, 'k')).p()); own->release(); }
+            }
         }
     } catch (...) { o += "[exception]"; }
     return o;
@@ -235,8 +259,12 @@ static void run_initterm(uint64_t idx, Ctx& c) {
     int level = 0; bool customActive = false; std::string s;
     for (int op : seq) {
         s += std::to_string(op);
-        if (op == 0) { XMLPlatformUtils::Initialize(); level++; }
-        else if (op == 1) { if (level == 0) customActive = true; XMLPlatformUtils::Initialize(XMLUni::fgXercescDefaultLocale, 0, 0, &custom); level++; }
+        if (op == 0) { if (g_itheap) XMLPlatformUtils::Initialize(0x10000, 0x80000, 0x1000, XMLUni::fgXercescDefaultLocale); else XMLPlatformUtils::Initialize(); level++; }
+        else if (op == 1) {
+            if (level == 0) customActive = true;
+            if (g_itheap) XMLPlatformUtils::Initialize(0x200, 0x400, 0x20, XMLUni::fgXercescDefaultLocale, 0, 0, &custom); else XMLPlatformUtils::Initialize(XMLUni::fgXercescDefaultLocale, 0, 0, &custom);
+            level++;
+        }
         else if (op == 2) {
             XMLPlatformUtils::Terminate(); level--;
             if (level == 0) {
@@ -377,17 +405,23 @@ int main(int argc, char** argv) {
     Runner R; R.name = space;
     if (space == "parse") {
         g_global = new Ledger("global");
-        XMLPlatformUtils::Initialize(XMLUni::fgXercescDefaultLocale, 0, 0, g_global);
+        // --domheap: the DOM arena parameters of Initialize (initial block, largest block, sub-allocation limit); 0 = defaults (0x4000, 0x80000, 0x100)
+        int dh = (int)a.num("domheap", 0);
+        g_plaincfg = (int)a.num("plain", 0);
+        if (dh == 1) XMLPlatformUtils::Initialize(0x10000, 0x80000, 0x1000, XMLUni::fgXercescDefaultLocale, 0, 0, g_global);       // name table no longer a block of its own
+        else if (dh == 2) XMLPlatformUtils::Initialize(0x200, 0x400, 0x20, XMLUni::fgXercescDefaultLocale, 0, 0, g_global);         // nearly every string is a block of its own
+        else if (dh == 3) XMLPlatformUtils::Initialize(0x4000, 0x4000, 0x4000, XMLUni::fgXercescDefaultLocale, 0, 0, g_global);     // limit == block size
+        else XMLPlatformUtils::Initialize(XMLUni::fgXercescDefaultLocale, 0, 0, g_global);
         g_vfs = new Vfs(); delete XMLPlatformUtils::fgFileMgr; XMLPlatformUtils::fgFileMgr = g_vfs;
         init_docs((int)a.num("k", 1));
         R.total = MDOCS.size() * 16; R.fn = run_parse;
         R.describe = [](uint64_t i) { PCase p = pcase(i); return "{\"doc\":" + jstr(MDOCS[p.doc].bytes) + ",\"api\":" + jstr(ApiN[p.api]) + ",\"lifetime\":" + jstr(LifeN[p.life]) + "}"; };
-        R.extra_json = "\"documents\":" + std::to_string(MDOCS.size());
+        R.extra_json = "\"documents\":" + std::to_string(MDOCS.size()) + ",\"dom_heap_parameters\":" + std::to_string(dh);
     } else if (space == "initterm") {
-        g_itdepth = (int)a.num("depth", 5);
+        g_itdepth = (int)a.num("depth", 5); g_itheap = (int)a.num("domheap", 0);
         R.total = words_upto(6, g_itdepth); R.fn = run_initterm;
         R.describe = [](uint64_t i) { std::string s; for (int o : word_at(i, 6, g_itdepth)) s += std::to_string(o); return "{\"sequence\":" + jstr(s) + "}"; };
-        R.extra_json = "\"depth\":" + std::to_string(g_itdepth);
+        R.extra_json = "\"depth\":" + std::to_string(g_itdepth) + ",\"dom_heap_parameters\":" + std::to_string(g_itheap);
     } else if (space == "poolwitness") {
         g_global = new Ledger("global");
         XMLPlatformUtils::Initialize(XMLUni::fgXercescDefaultLocale, 0, 0, g_global);
